@@ -25,7 +25,7 @@ partial / trusted: as C03 (our IEEE-1800 formalisation; unmodelled constructs co
 from common import *
 import sv_common as sv, sv_engine as eng, svparse, sv_gen, sched_common as sc
 import collections
-import c03
+import c03, common
 
 PID = 'C12'
 
@@ -87,10 +87,10 @@ def add_wire_forms(r):
 def run(ctx):
   setup_impl_path()
   quick = ctx.tier == 'quick'
-  ncyc = 16 if quick else 40
+  ncyc = 12 if quick else 30
   cache = {}
   designs = (eng.directed_designs(ctx) + sv.stdlib_designs(ctx.tier) + sv.testcase_designs() +
-             flat_designs(ctx, 40 if quick else 400) + eng.gen_designs(ctx, 90 if quick else 1200, ys_safe_fraction=0.75))
+             flat_designs(ctx, 24 if quick else 250) + eng.gen_designs(ctx, 60 if quick else 500, ys_safe_fraction=0.75))
   # --- Yosys text, flat port map included (hook: packed forms of struct inputs are added before Coq runs)
   orig_finish = eng.finish_case
   nforms = [0]
@@ -120,10 +120,12 @@ def run(ctx):
   ctx.extra['struct_shapes_checked_against_leaf_ranges'] = len(cases)
   ctx.extra['struct_input_packed_forms_compared'] = nforms[0]
   # --- three-way: the SystemVerilog text of the same designs on the same traces (C03 reports its own disagreements)
-  saved = (ctx.violations[:], dict(getattr(ctx, '_fam', {})), dict(ctx.hist), ctx.evaluations, set(ctx.distinct))
-  quiet = common.Ctx.__new__(common.Ctx); quiet.__dict__.update(ctx.__dict__)
-  quiet.violations, quiet.hist, quiet.extra, quiet.known_hits, quiet._fam = [], {}, {}, [], {}
-  svr = eng.run_backend(quiet, 'C03', 'sv', [d for d in designs if d.kind != 'case'], ncyc, cache, tagp='t')
+  class Quiet(common.Ctx):
+    def violation(s, key, what, replay, found_input=True):      # C03 reports these itself; only the keys are kept here
+      if key not in s.keys: s.keys.append(key)
+  quiet = Quiet.__new__(Quiet); quiet.__dict__.update(ctx.__dict__)
+  quiet.keys, quiet.hist, quiet.extra = [], {}, {}
+  svr = eng.run_backend(quiet, 'C03', 'sv', [d for d in designs if d.kind in ('directed', 'flat', 'gen')], ncyc, cache, tagp='t')
   ctx.evaluations, ctx.distinct = quiet.evaluations, quiet.distinct
   st = {r.d.name: r.status for r in svr}
   three = collections.Counter()
@@ -132,8 +134,12 @@ def run(ctx):
     a, b = r.status, st[r.d.name]
     three[f'yosys:{"agree" if a == "ok" else ("disagree" if a == "bad" else a)} / sv:{"agree" if b == "ok" else ("disagree" if b == "bad" else b)}'] += 1
   ctx.extra['three_way'] = dict(three)
-  ctx.extra['sv_disagreements_reported_by_C03'] = sorted({v[0] for v in quiet.violations})[:40]
+  ctx.extra['time_sv_three_way'] = quiet.extra.get('time_tsv')
+  ctx.extra['sv_disagreements_reported_by_C03'] = sorted(quiet.keys)[:40]
   c03.summarize(ctx, ys)
+
+def replay(ctx, rec):
+  return c03.replay(ctx, rec, PID, 'yosys')
 
 def main(ctx):
   ctx.trusted += [
@@ -153,4 +159,5 @@ def main(ctx):
   except Exception as e:
     ctx.violation(f'{PID}:harness-crash', f'correspondence could not run: {e!r}', {'traceback': traceback.format_exc()}, found_input=False)
   return ctx.finish(rule='designs = directed minimal designs (struct granularity shapes, constant sub-expressions, sext/reduce/trunc shapes, controls) + stdlib RTL components + DUTs of pymtl3\'s translation test-case catalogue + pass-through components over random nested struct shapes (connect / block / register / lists of struct ports / interfaces with struct messages) + random translatable designs; each simulated with random inputs, translated by YosysTranslationPass, parsed, replayed inside Coq with every flattened port driven / compared by its slice; distinct = (backend, design, hash of emitted text) and distinct struct shapes',
-                    level='proof')
+                    level='proof',
+                    explanation='flat port map: proved for all struct shapes; behaviour / drivers: proof over the modelled subset (our IEEE 1800 formalisation, certified acceptors) + translation validation of the real emitted text per design and input sequence')
